@@ -130,6 +130,9 @@ func (x *Exec) callByKey(st *State, key string, fn *ssa.Function, args []Val, re
 		}
 		return true
 	}
+	if fn != nil && fn.Blocks == nil && isInlineableExternal(key) && fn.Pkg != nil {
+		fn.Pkg.Build()
+	}
 	if fn != nil && fn.Blocks != nil && (inRepo(fn) || isInlineableExternal(key)) {
 		if len(st.frames) >= maxInlineDepth {
 			unsupp("inline depth exceeded at %s", key)
@@ -172,7 +175,8 @@ func (x *Exec) findClosure(st *State, fn *ssa.Function, args []Val, site ssa.Ins
 }
 
 func isInlineableExternal(key string) bool {
-	return false
+	// generated protobuf getters (nil-safe field reads)
+	return strings.Contains(key, "common/messages/") && strings.Contains(key, ").Get")
 }
 
 func externalPolicy(key string) string {
